@@ -6,6 +6,7 @@ package harness
 
 import (
 	"fmt"
+	"runtime"
 	"sync"
 	"testing"
 
@@ -18,13 +19,16 @@ type c06cCase struct {
 	Cfg     LimitCfg `json:"cfg"`
 	Workers int      `json:"workers"`
 	Drops   int      `json:"drops"` // per worker
+	// ListenerYields > 0: a change listener is registered that takes its time (that many scheduler yields per call): what
+	// the limit reports afterwards must still be the result of all drops
+	ListenerYields int `json:"listener_yields,omitempty"`
 }
 
 func TestC06_concurrent(t *testing.T) {
 	kit.RequireMode(t, "std")
 	kit.Check(t, kit.Prop[c06cCase]{
 		ID: "C06", Quick: 400, Thor: 20_000,
-		Rule: "2-8 real threads each feeding drop samples to one AIMD limit; the final estimate must equal the back-off formula applied (threads x drops) times (no lost update); non-trivial = the sequential result is above the floor or was reached within the last thread's share",
+		Rule: "2-8 real threads each feeding drop samples to one AIMD limit (with or without a change listener that takes its time); the final estimate must equal the back-off formula applied (threads x drops) times (no lost update); non-trivial = the sequential result is above the floor or was reached within the last thread's share",
 		Gen: func(t *rapid.T) c06cCase {
 			c := c06cCase{Cfg: genLossCfg(t, []string{"aimd"}), Workers: rapid.IntRange(2, 8).Draw(t, "workers"), Drops: rapid.OneOf(rapid.IntRange(1, 40), rapid.IntRange(50, 1500)).Draw(t, "drops")}
 			c.Cfg.Initial = rapid.OneOf(rapid.IntRange(50, 3000), rapid.IntRange(1000, 100000)).Draw(t, "initial")
@@ -34,10 +38,18 @@ func TestC06_concurrent(t *testing.T) {
 				c.Cfg.Initial = rapid.IntRange(20_000, 400_000).Draw(t, "bigInitial")
 				c.Cfg.Backoff = rapid.SampledFrom([]float64{1, 1, 0.9999, 0.999}).Draw(t, "slowestBackoff")
 			}
+			c.ListenerYields = rapid.SampledFrom([]int{0, 0, 1, 5, 50}).Draw(t, "listenerYields")
 			return c
 		},
 		Run: func(_ *testing.T, c c06cCase) kit.Outcome {
 			b := buildLimit(c.Cfg, nil)
+			if c.ListenerYields > 0 {
+				b.Outer.NotifyOnChange(func(int) {
+					for i := 0; i < c.ListenerYields; i++ {
+						runtime.Gosched()
+					}
+				})
+			}
 			start := make(chan struct{})
 			var wg sync.WaitGroup
 			for g := 0; g < c.Workers; g++ {
